@@ -33,9 +33,9 @@ Definition sp_of (path : N) : selpath := if path =? 0 then Pdep else Portable.
 Definition mode_of (dbg : bool) : mode := if dbg then Debug else Release.
 
 (* ---- exhaustive call strings: 4 calls over {next, next_back, nth(1), nth_back(1)}, then a tail that
-   exhausts any iterator with at most 6 items and keeps calling ---- *)
+   exhausts any iterator that had at most 5 items (each of the 4 calls consumes one) and keeps calling ---- *)
 Definition exh_alpha : list call := [Next; NextBack; Nth 1; NthBack 1].
-Definition exh_tail : list call := [Len; Next; Next; Next; Next; Next; Next; Len; Next; NextBack; Nth 0; NthBack 0; Len].
+Definition exh_tail : list call := [Len; Next; Next; Len; NextBack; Nth 0; NthBack 0; Len].
 Definition exh_calls : list (list call) :=
   flat_map (fun c1 => flat_map (fun c2 => flat_map (fun c3 => map (fun c4 => [c1; c2; c3; c4] ++ exh_tail)
     exh_alpha) exh_alpha) exh_alpha) exh_alpha.
